@@ -18,6 +18,9 @@ KERNEL_PREFIXES = ("src/field", "src/scalar", "src/group", "src/ecmult", "src/mo
                    "src/util.h", "src/precompute", "src/ecmult_gen", "src/selftest.h", "src/testrand", "src/hsort_impl.h")
 
 
+NONZERO_ARG = ("secp256k1_clz64_var", "secp256k1_ctz32_var", "secp256k1_ctz64_var")
+
+
 def _in_scope(f):
     return f.file.startswith("src/") and not f.file.startswith(KERNEL_PREFIXES) and f.blocks
 
@@ -57,9 +60,7 @@ def scan(prog):
         g = None
         seen_ids = {}
         def add(idbase, loc, kindname, text, proved, detail):
-            n = seen_ids.get(idbase, 0) + 1
-            seen_ids[idbase] = n
-            out.append({"id": "%s#%d" % (idbase, n), "fn": f.name, "loc": loc, "kind": kindname, "text": text,
+            out.append({"idbase": idbase, "fn": f.name, "loc": loc, "kind": kindname, "text": text,
                         "proved": proved, "detail": detail})
         for el in f.elems():
             cands = []
@@ -73,6 +74,8 @@ def scan(prog):
                         cands.append(("idx", x))
                 elif k in ("bin", "assign") and x[1] in ("<<", ">>", "<<=", ">>=") and int_val(x[3]) is None:
                     cands.append(("shift", x))
+                elif k == "call" and callee_name(x) in NONZERO_ARG and x[3]:
+                    cands.append(("pre", x))
             if not cands:
                 continue
             if g is None:
@@ -81,6 +84,23 @@ def scan(prog):
             if env is None:
                 continue
             for kd, x in cands:
+                if kd == "pre":
+                    # evaluate at the call's own CFG element (it may sit in one arm of a ?: or && whose guard refines the argument)
+                    env2 = env
+                    for b2 in f.blocks.values():
+                        for el2 in b2.elems:
+                            if el2.e == x:
+                                e2 = g.env_at(el2)
+                                if e2 is not None:
+                                    env2 = e2
+                    iv = g.ev(x[3][0], env2)
+                    idb = "R-CAP:%s:nonzero:%s" % (f.name, callee_name(x))
+                    text = "%s is undefined for 0: its argument %s must be >= 1" % (callee_name(x), show(x[3][0]))
+                    if iv[0] == -INF:
+                        add(idb, x[2], "pre", text, None, "argument %s not bounded by intervals" % fmt(iv))
+                    else:
+                        add(idb, x[2], "pre", text, iv[0] >= 1, "argument in %s" % fmt(iv))
+                    continue
                 if kd == "mem":
                     ln = g.ev(x[3][2], env)
                     for which, arg in (("dst", x[3][0]), ("src", x[3][1])):
@@ -101,7 +121,7 @@ def scan(prog):
                 elif kd == "idx":
                     b = strip(x[1])
                     iv = g.ev(x[2], env)
-                    idb = "R-CAP:%s:index:%s[%s]" % (f.name, show(b[1]), show(x[2]))
+                    idb = "R-CAP:%s:index:%s" % (f.name, show(b[1]))
                     text = "index %s into %s[%d] must be within bounds" % (show(x[2]), show(b[1]), b[4])
                     if iv[1] == INF or iv[0] == -INF:
                         add(idb, el.loc, "idx", text, None, "index %s not bounded by intervals" % fmt(iv))
@@ -119,12 +139,23 @@ def scan(prog):
                         width = strip(x[2])[2]
                     if width is None or width < 32:
                         width = 32 if width is None or width < 32 else width
-                    idb = "R-CAP:%s:shift:%s%s%s" % (f.name, show(x[2]), x[1], show(x[3]))
+                    idb = "R-CAP:%s:shift:%s" % (f.name, x[1])
                     text = "shift amount %s must be in [0, %d]" % (show(x[3]), width - 1)
                     if iv[1] == INF or iv[0] == -INF:
                         add(idb, el.loc, "shift", text, None, "amount %s not bounded by intervals" % fmt(iv))
                     else:
                         add(idb, el.loc, "shift", text, iv[0] >= 0 and iv[1] <= width - 1, "amount in %s" % fmt(iv))
+    # number the sites of one (function, kind, base object) in source order
+    def line_of(s):
+        try:
+            return int(s["loc"].rsplit(":", 1)[1])
+        except (ValueError, IndexError):
+            return 0
+    out.sort(key=lambda s: (s["idbase"], line_of(s)))
+    cnt = {}
+    for s in out:
+        cnt[s["idbase"]] = cnt.get(s["idbase"], 0) + 1
+        s["id"] = "%s#%d" % (s["idbase"], cnt[s["idbase"]])
     return out
 
 
